@@ -98,8 +98,10 @@ def pInt : P Int := do let t ← tok; match t.toInt? with | some n => pure n | n
 def pMany {α} (p : P α) : Nat → P (List α)
   | 0 => pure []
   | n + 1 => do let a ← p; let r ← pMany p n; pure (a :: r)
-def pIds : P (List Nat) := do let n ← pNat; pMany pNat n
-def pPairs : P (List (Nat × Nat)) := do let n ← pNat; pMany (do let a ← pNat; let b ← pNat; pure (a, b)) n
+/-- a component id: must be registered (`< bound`), else the line is outside the protocol -/
+def pComp (bound : Nat) : P Nat := do let i ← pNat; if i < bound then pure i else failure
+def pIds (bound : Nat) : P (List Nat) := do let n ← pNat; pMany (pComp bound) n
+def pPairs (bound : Nat) : P (List (Nat × Nat)) := do let n ← pNat; pMany (do let a ← pComp bound; let b ← pNat; pure (a, b)) n
 def pEnd : P Unit := fun s => match s with | [] => some ((), []) | _ => none
 
 /-- entity reference: `e<k>` (k-th handle issued), `e-` (zero), `E<id>:<gen>` (literal).
@@ -123,9 +125,9 @@ def pEnt (handles : Array Entity) : P (Option Entity) := do
 partial def pFilter (s : Sess) : P (Option Filter) := do
   let t ← tok
   match t with
-  | "A" => do let ids ← pIds; pure (some (.all (Mask.ofList ids)))
-  | "W" => do let a ← pIds; let b ← pIds; pure (some (.maskF (Mask.ofList a) (Mask.ofList b)))
-  | "X" => do let a ← pIds; pure (some (.maskF (Mask.ofList a) (Mask.notW (Mask.ofList a) s.w.cfg.maskBits)))
+  | "A" => do let ids ← pIds s.w.reg.count; pure (some (.all (Mask.ofList ids)))
+  | "W" => do let a ← pIds s.w.reg.count; let b ← pIds s.w.reg.count; pure (some (.maskF (Mask.ofList a) (Mask.ofList b)))
+  | "X" => do let a ← pIds s.w.reg.count; pure (some (.maskF (Mask.ofList a) (Mask.notW (Mask.ofList a) s.w.cfg.maskBits)))
   | "R" => do
       let f ← pFilter s
       let e ← pEnt s.handles
@@ -134,27 +136,27 @@ partial def pFilter (s : Sess) : P (Option Filter) := do
   | "|" => do let l ← pFilter s; let r ← pFilter s; pure (do let l ← l; let r ← r; some (.or l r))
   | "^" => do let l ← pFilter s; let r ← pFilter s; pure (do let l ← l; let r ← r; some (.xor l r))
   | "!" => do let f ← pFilter s; pure (f.map .not)
-  | "ANY" => do let a ← pIds; pure (some (.any (Mask.ofList a)))
-  | "NONE" => do let a ← pIds; pure (some (.noneOf (Mask.ofList a)))
-  | "ANYNOT" => do let a ← pIds; pure (some (.anyNot (Mask.ofList a)))
+  | "ANY" => do let a ← pIds s.w.reg.count; pure (some (.any (Mask.ofList a)))
+  | "NONE" => do let a ← pIds s.w.reg.count; pure (some (.noneOf (Mask.ofList a)))
+  | "ANYNOT" => do let a ← pIds s.w.reg.count; pure (some (.anyNot (Mask.ofList a)))
   | "C" => do let k ← pNat; pure ((s.cfilters[k]?).map (·.1))
   | _ => failure
 
 /-- optional relation id: `R <id>` or `-` -/
-def pRel : P (Option Nat) := do
+def pRel (bound : Nat) : P (Option Nat) := do
   let t ← tok
-  if t == "-" then pure none else if t == "R" then (do let r ← pNat; pure (some r)) else failure
+  if t == "-" then pure none else if t == "R" then (do let r ← pComp bound; pure (some r)) else failure
 
 /-- optional target: `T <ent>` or `-`; outer none = absent, inner none = dangling -/
 def pTarget (handles : Array Entity) : P (Option (Option Entity)) := do
   let t ← tok
   if t == "-" then pure none else if t == "T" then (do let e ← pEnt handles; pure (some e)) else failure
 
-def pSub : P SubL := do
+def pSub (bound : Nat) : P SubL := do
   let s ← pNat
   let t ← tok
   if t == "-" then pure ⟨s, none⟩
-  else if t == "C" then (do let ids ← pIds; pure ⟨s, some (Mask.ofList ids)⟩)
+  else if t == "C" then (do let ids ← pIds bound; if ids.isEmpty then failure else pure ⟨s, some (Mask.ofList ids)⟩)
   else failure
 
 /-! ### executing one line -/
@@ -220,6 +222,7 @@ def execLine (s : Sess) (line : String) : StepOut :=
   if cmd.startsWith "#" then { s := s, lines := [] } else
   let w := s.w
   let H := s.handles
+  let B := w.reg.count
   if cmd == "world" then
     match runP (do let a ← pNat; let b ← pNat; let c ← pNat; pure (a, b, c)) args with
     | some (a, b, c) =>
@@ -238,19 +241,19 @@ def execLine (s : Sess) (line : String) : StepOut :=
     | [] => finish s w.registerResource (fun s id => (s, toString id))
     | _ => badOp s
   else if cmd == "new" then
-    match runP pIds args with
+    match runP (pIds B) args with
     | some ids => finish s (w.newEntity ids) (fun s e => ({ s with handles := s.handles.push e }, showEnt e))
     | none => badOp s
   else if cmd == "newv" then
-    match runP pPairs args with
+    match runP (pPairs B) args with
     | some cs => finish s (w.newEntityWith cs) (fun s e => ({ s with handles := s.handles.push e }, showEnt e))
     | none => badOp s
   else if cmd == "bld" then
     -- bld <I n ids | V n (id val)…> <R id | -> <new|batch c|batchq c|add e> <T ent | ->
     let p : P _ := do
       let kind ← tok
-      let comps ← (if kind == "I" then (do let ids ← pIds; pure (ids.map (fun i => (i, 0)))) else if kind == "V" then pPairs else failure)
-      let rel ← pRel
+      let comps ← (if kind == "I" then (do let ids ← pIds B; pure (ids.map (fun i => (i, 0)))) else if kind == "V" then pPairs B else failure)
+      let rel ← pRel B
       let m ← tok
       let cnt ← (if m == "batch" || m == "batchq" then pInt else pure 0)
       let ent ← (if m == "add" then pEnt H else pure (some Entity.zero))
@@ -293,28 +296,28 @@ def execLine (s : Sess) (line : String) : StepOut :=
     | some none => badRef s
     | none => badOp s
   else if cmd == "add" || cmd == "rem" then
-    match runP (do let e ← pEnt H; let ids ← pIds; pure (e, ids)) args with
+    match runP (do let e ← pEnt H; let ids ← pIds B; pure (e, ids)) args with
     | some (some e, ids) =>
       finish s (if cmd == "add" then w.exchange e ids [] none Entity.zero else w.exchange e [] ids none Entity.zero) (fun s _ => (s, ""))
     | some (none, _) => badRef s
     | none => badOp s
   else if cmd == "xchg" then
-    match runP (do let e ← pEnt H; let a ← pIds; let r ← pIds; pure (e, a, r)) args with
+    match runP (do let e ← pEnt H; let a ← pIds B; let r ← pIds B; pure (e, a, r)) args with
     | some (some e, a, r) => finish s (w.exchange e a r none Entity.zero) (fun s _ => (s, ""))
     | some (none, _, _) => badRef s
     | none => badOp s
   else if cmd == "relxchg" then
-    match runP (do let e ← pEnt H; let a ← pIds; let r ← pIds; let rl ← pNat; let t ← pEnt H; pure (e, a, r, rl, t)) args with
+    match runP (do let e ← pEnt H; let a ← pIds B; let r ← pIds B; let rl ← pComp B; let t ← pEnt H; pure (e, a, r, rl, t)) args with
     | some (some e, a, r, rl, some t) => finish s (w.exchange e a r (some rl) t) (fun s _ => (s, ""))
     | some _ => badRef s
     | none => badOp s
   else if cmd == "assign" then
-    match runP (do let e ← pEnt H; let cs ← pPairs; pure (e, cs)) args with
+    match runP (do let e ← pEnt H; let cs ← pPairs B; pure (e, cs)) args with
     | some (some e, cs) => finish s (w.assign e none Entity.zero cs) (fun s _ => (s, ""))
     | some (none, _) => badRef s
     | none => badOp s
   else if cmd == "set" then
-    match runP (do let e ← pEnt H; let i ← pNat; let v ← pNat; pure (e, i, v)) args with
+    match runP (do let e ← pEnt H; let i ← pComp B; let v ← pNat; pure (e, i, v)) args with
     | some (some e, i, v) =>
       let (w', p) := w.copyTo e i v
       (match p with
@@ -324,7 +327,7 @@ def execLine (s : Sess) (line : String) : StepOut :=
     | none => badOp s
   else if cmd == "write" then
     -- write through the pointer returned by World.Get
-    match runP (do let e ← pEnt H; let i ← pNat; let v ← pNat; pure (e, i, v)) args with
+    match runP (do let e ← pEnt H; let i ← pComp B; let v ← pNat; pure (e, i, v)) args with
     | some (some e, i, v) =>
       (match w.checkAlive e with
        | some p => { s := s, lines := [panicLine p] }
@@ -336,7 +339,7 @@ def execLine (s : Sess) (line : String) : StepOut :=
     | some (none, _, _) => badRef s
     | none => badOp s
   else if cmd == "get" || cmd == "has" then
-    match runP (do let e ← pEnt H; let i ← pNat; pure (e, i)) args with
+    match runP (do let e ← pEnt H; let i ← pComp B; pure (e, i)) args with
     | some (some e, i) =>
       (match w.checkAlive e with
        | some p => { s := s, lines := [panicLine p] }
@@ -362,21 +365,26 @@ def execLine (s : Sess) (line : String) : StepOut :=
        | some b => { s := s, lines := [okLine (b01 b)] })
     | some none => badRef s
     | none => badOp s
+  else if cmd == "json" then
+    match runP (pEnt H) args with
+    | some (some e) => { s := s, lines := [okLine (showEnt e)] }
+    | some none => badRef s
+    | none => badOp s
   else if cmd == "relget" then
-    match runP (do let e ← pEnt H; let r ← pNat; pure (e, r)) args with
+    match runP (do let e ← pEnt H; let r ← pComp B; pure (e, r)) args with
     | some (some e, r) => finish s (w.getRelation e r) (fun s t => (s, showEnt t))
     | some (none, _) => badRef s
     | none => badOp s
   else if cmd == "relset" then
-    match runP (do let e ← pEnt H; let r ← pNat; let t ← pEnt H; pure (e, r, t)) args with
+    match runP (do let e ← pEnt H; let r ← pComp B; let t ← pEnt H; pure (e, r, t)) args with
     | some (some e, r, some t) => finish s (w.setRelation e r t) (fun s _ => (s, ""))
     | some _ => badRef s
     | none => badOp s
   else if cmd == "b_xchg" || cmd == "b_xchgq" || cmd == "b_add" || cmd == "b_addq" || cmd == "b_rem" || cmd == "b_remq" then
     let p : P _ := do
       let f ← pFilter s
-      let a ← (if cmd.startsWith "b_rem" then pure [] else pIds)
-      let r ← (if cmd.startsWith "b_add" then pure [] else pIds)
+      let a ← (if cmd.startsWith "b_rem" then pure [] else pIds B)
+      let r ← (if cmd.startsWith "b_add" then pure [] else pIds B)
       pure (f, a, r)
     match runP p args with
     | some (some f, a, r) =>
@@ -386,7 +394,7 @@ def execLine (s : Sess) (line : String) : StepOut :=
     | some (none, _, _) => badRef s
     | none => badOp s
   else if cmd == "rb_xchg" || cmd == "rb_xchgq" then
-    match runP (do let f ← pFilter s; let a ← pIds; let r ← pIds; let rl ← pNat; let t ← pEnt H; pure (f, a, r, rl, t)) args with
+    match runP (do let f ← pFilter s; let a ← pIds B; let r ← pIds B; let rl ← pComp B; let t ← pEnt H; pure (f, a, r, rl, t)) args with
     | some (some f, a, r, rl, some t) =>
       if cmd.endsWith "q" then
         finish s (w.exchangeBatchQuery f a r (some rl) t) (fun s q => ({ s with queries := s.queries.push (q, false) }, s!"q{s.queries.size}"))
@@ -394,7 +402,7 @@ def execLine (s : Sess) (line : String) : StepOut :=
     | some _ => badRef s
     | none => badOp s
   else if cmd == "b_setrel" || cmd == "b_setrelq" || cmd == "rb_set" || cmd == "rb_setq" then
-    match runP (do let f ← pFilter s; let rl ← pNat; let t ← pEnt H; pure (f, rl, t)) args with
+    match runP (do let f ← pFilter s; let rl ← pComp B; let t ← pEnt H; pure (f, rl, t)) args with
     | some (some f, rl, some t) =>
       if cmd.endsWith "q" then
         finish s (w.setRelationBatchQuery f rl t) (fun s q => ({ s with queries := s.queries.push (q, false) }, s!"q{s.queries.size}"))
@@ -476,7 +484,7 @@ def execLine (s : Sess) (line : String) : StepOut :=
     | some k => withQuery s k true (fun q => { s := s, lines := [okLine (showEnt (q.entity w))] })
     | none => badOp s
   else if cmd == "qh" || cmd == "qg" then
-    match runP (do let k ← pNat; let i ← pNat; pure (k, i)) args with
+    match runP (do let k ← pNat; let i ← pComp B; pure (k, i)) args with
     | some (k, i) => withQuery s k true (fun q =>
         match curLoc s q with
         | none => badRef s
@@ -492,14 +500,14 @@ def execLine (s : Sess) (line : String) : StepOut :=
         | some t => { s := s, lines := [okLine (showIds (w.tableIds t))] })
     | none => badOp s
   else if cmd == "qr" then
-    match runP (do let k ← pNat; let r ← pNat; pure (k, r)) args with
+    match runP (do let k ← pNat; let r ← pComp B; pure (k, r)) args with
     | some (k, r) => withQuery s k true (fun q =>
         match w.queryRelation q r with
         | .ok e => { s := s, lines := [okLine (showEnt e)] }
         | .error p => { s := s, lines := [panicLine p] })
     | none => badOp s
   else if cmd == "qw" then
-    match runP (do let k ← pNat; let i ← pNat; let v ← pNat; pure (k, i, v)) args with
+    match runP (do let k ← pNat; let i ← pComp B; let v ← pNat; pure (k, i, v)) args with
     | some (k, i, v) => withQuery s k true (fun q =>
         match curLoc s q with
         | none => badRef s
@@ -551,16 +559,16 @@ def execLine (s : Sess) (line : String) : StepOut :=
     | some r => if r < w.resCount then { s := s, lines := [okLine (b01 (w.resHas r))] } else badRef s
     | none => badOp s
   else if cmd == "lst" then
-    match runP pSub args with
+    match runP (pSub B) args with
     | some l => { s := { s with w := { w with listener := some (.single l) } }, lines := [okLine ""] }
     | none => badOp s
   else if cmd == "nolst" then { s := { s with w := { w with listener := none } }, lines := [okLine ""] }
   else if cmd == "disp" then
-    match runP (do let n ← pNat; pMany pSub n) args with
+    match runP (do let n ← pNat; pMany (pSub B) n) args with
     | some ls => { s := { s with w := { w with listener := some (.dispatch ls) } }, lines := [okLine ""] }
     | none => badOp s
   else if cmd == "dispadd" then
-    match runP pSub args with
+    match runP (pSub B) args with
     | some l =>
       (match w.listener with
        | some (.dispatch ls) => { s := { s with w := { w with listener := some (.dispatch (ls ++ [l])) } }, lines := [okLine ""] }
